@@ -89,6 +89,14 @@ fn random_env(r: &mut Rng) -> EnvSpec {
 }
 
 fn random_program(r: &mut Rng, out: &mut Out) -> String {
+    if r.chance(1, 14) {
+        out.stat("gen_wide");
+        return wide_program(r);
+    }
+    if r.chance(1, 10) {
+        out.stat("gen_feeding");
+        return gen::feeding(r);
+    }
     match r.below(10) {
         0..=3 => {
             out.stat("gen_token");
@@ -955,12 +963,22 @@ fn c13_case<C: CellType>(w: u32, code: &str, env: &EnvSpec, run_it: bool, out: &
                 ));
                 let _ = round;
             }
+            // the (cheap) bytecode generator a few more times: hash-order dependence shows per compilation
+            for _ in 0..4 {
+                let ir = ir::Program::<C>::parse(code).unwrap().optimize(lvl);
+                let bc = hpbf::bc::CodeGen::translate(&ir, 2, true);
+                let bc3 = hpbf::bc::CodeGen::translate(&ir, 3, true);
+                v.push(format!("{:016x}.{:016x}", fnv(format!("{bc:?}").as_bytes()), fnv(format!("{bc3:?}").as_bytes())));
+            }
             v
         });
         match res {
             Ok(v) => {
                 if v[0] != v[1] {
                     problems.push(format!("O{lvl}:second-compilation-differs"));
+                }
+                if v[2..].iter().any(|x| *x != v[2]) || !v[0].contains(v[2].split('.').next().unwrap()) {
+                    problems.push(format!("O{lvl}:bytecode-differs-between-compilations"));
                 }
                 hashes.push(v[0].clone());
             }
@@ -993,10 +1011,24 @@ fn c13_case<C: CellType>(w: u32, code: &str, env: &EnvSpec, run_it: bool, out: &
     out.side.push(format!("{w} {} {}", hex(code.as_bytes()), hashes.join(" ")));
 }
 
+const C13_FIXED: &[&str] = &[
+    ",>,>,><<<>>[->>++++<++<<<+>>]<<>[-<+>]<[->>+++>++<<++>+<<].>.>.>.>.>.>",
+    ",>,>,>,><<<<>>>[-<<<++>>>>>+++<<<<++>>]<<<>[->>>>>+<<<<+++<]<.>.>.>.>.>.>.>",
+    ",>,>,>,>,>,><<<<<<>[->>>>+++<++<<<]<>>>[->+++<]<<<[->>>>+>+++<<<<<].>.>.>.>.>.>.>.>.>",
+];
+
 /// Compilation is total (no panic), deterministic within the process, and executors are reusable.
 pub fn c13(r: &mut Rng, count: usize, out: &mut Out) {
     let prev = std::panic::take_hook();
     std::panic::set_hook(Box::new(|_| {}));
+    // fixed programs first: several spilled temporaries die at one instruction (spill-slot reuse)
+    for code in C13_FIXED {
+        for &w in &[8u32, 32] {
+            let env = random_env(r);
+            out.stat("fixed");
+            with_width!(w, c13_case, w, code, &env, true, out);
+        }
+    }
     for i in 0..count {
         let (code, run_it) = match i % 6 {
             5 => {
@@ -1006,6 +1038,10 @@ pub fn c13(r: &mut Rng, count: usize, out: &mut Out) {
             4 => {
                 out.stat("gen_divergent");
                 (gen::maybe_divergent(r), true)
+            }
+            3 => {
+                out.stat("gen_feeding");
+                (gen::feeding(r), true)
             }
             _ => (random_program(r, out), true),
         };
@@ -1564,4 +1600,325 @@ pub fn jitrun(r: &mut Rng, count: usize, out: &mut Out) {
         let w = *r.pick(&WIDTHS);
         with_width!(w, jitrun_case, w, &code, &env, out);
     }
+}
+
+// ----------------------------------------------------------------------------------------- irgen
+
+struct IrCfg {
+    vlo: i64,
+    vhi: i64,
+    maxparts: u64,
+    maxvars: u64,
+    maxcalcs: u64,
+    maxlen: u64,
+    maxdepth: u32,
+    loops: bool,
+}
+
+fn gen_ir_expr<C: CellType>(r: &mut Rng, c: &IrCfg) -> ir::Expr<C> {
+    let n = r.below(c.maxparts + 1);
+    let mut parts: Vec<(C, Vec<isize>)> = Vec::new();
+    for _ in 0..n {
+        let coef = match r.below(7) {
+            0 | 1 => C::ONE,
+            2 | 3 => C::NEG_ONE,
+            4 => C::from_u64(r.range(2, 5) as u64),
+            5 => C::from_u64(1u64 << r.below(C::BITS as u64)),
+            _ => {
+                let v = C::from_u64(r.next());
+                if v == C::ZERO { C::ONE } else { v }
+            }
+        };
+        let nv = r.below(c.maxvars + 1);
+        let mut vars = Vec::new();
+        for _ in 0..nv {
+            // squares and repeated variables on purpose
+            if !vars.is_empty() && r.chance(1, 3) {
+                let k = vars[r.below(vars.len() as u64) as usize];
+                vars.push(k);
+            } else {
+                vars.push(r.range(c.vlo, c.vhi) as isize);
+            }
+        }
+        vars.sort();
+        parts.push((coef, vars));
+    }
+    parts.sort_by(|a, b| a.1.cmp(&b.1));
+    parts.dedup_by(|a, b| a.1 == b.1);
+    ir::Expr::verif_from_parts(parts)
+}
+
+fn gen_ir_insts<C: CellType>(r: &mut Rng, c: &IrCfg, depth: u32) -> Vec<ir::Instr<C>> {
+    use hpbf::verif::SmallVec;
+    let n = r.below(c.maxlen + 1);
+    let mut res = Vec::new();
+    for _ in 0..n {
+        let k = r.below(20);
+        let v = |r: &mut Rng| r.range(c.vlo, c.vhi) as isize;
+        if k < 2 {
+            res.push(ir::Instr::Output { src: v(r) });
+        } else if k < 4 {
+            res.push(ir::Instr::Input { dst: v(r) });
+        } else if k < 6 {
+            // a plain zero store (feeds the zeroing-move fusion) or constant store
+            let mut calcs = SmallVec::new();
+            calcs.push((v(r), ir::Expr::val(if r.chance(2, 3) { C::ZERO } else { C::from_u64(r.below(9)) })));
+            res.push(ir::Instr::Calc { calcs });
+        } else if k < 15 || depth >= c.maxdepth {
+            let nc = 1 + r.below(c.maxcalcs);
+            let mut calcs = SmallVec::new();
+            let mut used: Vec<isize> = Vec::new();
+            for _ in 0..nc {
+                let d = v(r);
+                if used.contains(&d) {
+                    continue;
+                }
+                used.push(d);
+                calcs.push((d, gen_ir_expr::<C>(r, c)));
+            }
+            res.push(ir::Instr::Calc { calcs });
+        } else {
+            let shift = if r.chance(1, 3) { r.range(-2, 2) as isize } else { 0 };
+            let insts = if r.chance(1, 6) { Vec::new() } else { gen_ir_insts::<C>(r, c, depth + 1) };
+            let block = ir::Block { shift, insts };
+            if c.loops && k < 18 {
+                res.push(ir::Instr::Loop { cond: v(r), block, once: false });
+            } else {
+                res.push(ir::Instr::If { cond: v(r), block });
+            }
+        }
+    }
+    res
+}
+
+fn irgen_case<C: CellType>(w: u32, r: &mut Rng, out: &mut Out) {
+    let mk = |r: &mut Rng, loops: bool| -> IrCfg {
+        if r.chance(1, 3) {
+            IrCfg { vlo: -(r.below(6) as i64), vhi: 1 + r.below(14) as i64, maxparts: 4 + r.below(10), maxvars: 1 + r.below(3),
+                    maxcalcs: 2 + r.below(14), maxlen: 1 + r.below(8), maxdepth: r.below(3) as u32, loops }
+        } else {
+            IrCfg { vlo: -(r.below(4) as i64), vhi: 1 + r.below(8) as i64, maxparts: 1 + r.below(5), maxvars: r.below(4),
+                    maxcalcs: 1 + r.below(4), maxlen: 1 + r.below(14), maxdepth: r.below(4) as u32, loops }
+        }
+    };
+    // (a) generator tie on arbitrary IR, loops included (compile only)
+    let c = mk(r, true);
+    let prog: ir::Block<C> = ir::Block { shift: 0, insts: gen_ir_insts::<C>(r, &c, 0) };
+    let text = encode_block(&prog);
+    for &(nregs, fuse) in &[(2usize, true), (11usize, false)] {
+        let bc = hpbf::bc::CodeGen::translate(&prog, nregs, fuse);
+        out.case(&format!("bcgen {w} {nregs} {} {text}", if fuse { 1 } else { 0 }), &encode_bc(&bc));
+    }
+    out.stat("bcgen_random_ir");
+    // (b) execution of loop-free IR (ifs, shifts, simultaneous assignments, products, zero stores) on the
+    // IR interpreter, the bytecode interpreter (2 regs, fusion) and the JIT (11 regs), all cells printed at the end
+    let c = mk(r, false);
+    let mut insts = gen_ir_insts::<C>(r, &c, 0);
+    for v in (c.vlo - 2)..=(c.vhi + 2) {
+        insts.push(ir::Instr::Output { src: v as isize });
+    }
+    let prog: ir::Block<C> = ir::Block { shift: 0, insts };
+    let text = encode_block(&prog);
+    let input = gen::input_bytes(r);
+    let env = EnvSpec::plain(&input);
+    let clone_ir = |p: &ir::Block<C>| p.clone();
+    let mut results: Vec<(String, String)> = Vec::new();
+    {
+        let exec = IrInterpreter::<C>::verif_from_ir(clone_ir(&prog));
+        let r1 = run_exec::<C>(&exec, &env, &Mode::Unlimited);
+        results.push(("irint".into(), format!("{} {}", r1.tag, r1.trace)));
+    }
+    {
+        let bc = hpbf::bc::CodeGen::translate(&prog, 2, true);
+        let exec = BcInterpreter::<C>::verif_from_bc(bc);
+        let r1 = run_exec::<C>(&exec, &env, &Mode::Unlimited);
+        results.push(("bcint".into(), format!("{} {}", r1.tag, r1.trace)));
+    }
+    {
+        let bc = hpbf::bc::CodeGen::translate(&prog, 11, false);
+        if bc.temps > 11 {
+            out.stat("jit_stack_temps");
+        }
+        let exec = BaseJitCompiler::<C>::verif_from_bc(bc);
+        let r1 = run_exec::<C>(&exec, &env, &Mode::Unlimited);
+        results.push(("basejit".into(), format!("{} {}", r1.tag, r1.trace)));
+    }
+    let first = results[0].1.clone();
+    let imp = if results.iter().all(|(_, x)| *x == first) {
+        first
+    } else {
+        let dis: Vec<String> = results.iter().map(|(n, x)| format!("{n}=[{}]", x.chars().take(300).collect::<String>())).collect();
+        format!("DISAGREE {}", dis.join(" "))
+    };
+    out.case(&format!("irexec {w} 2000000 {} {text}", env.encode()), &imp);
+    out.stat("irexec");
+}
+
+/// Random IR built directly (not through the parser/optimiser): exact generator tie, and execution of
+/// loop-free IR on IR interpreter / bytecode interpreter / JIT against the Lean IR semantics.
+pub fn irgen(r: &mut Rng, count: usize, out: &mut Out) {
+    for _ in 0..count {
+        let w = *r.pick(&WIDTHS);
+        with_width!(w, irgen_case, w, r, out);
+    }
+}
+
+// -------------------------------------------------------------------------------------- optarith
+
+fn optarith_case<C: CellType>(code: &str, out: &mut Out) {
+    for &lvl in &[1u32, 2, 3] {
+        if let Ok(p) = ir::Program::<C>::parse(code) {
+            let _ = hpbf::verif::trace_take();
+            let _ = p.optimize(lvl);
+            for entry in hpbf::verif::trace_take() {
+                let t: Vec<&str> = entry.split_whitespace().collect();
+                // request = kind, width, arguments; reply = the recorded result fields
+                let (nargs, kind) = match t[0] {
+                    "trip" => (2, "trip"),
+                    "tripinv" => (1, "tripinv"),
+                    "powmul" => (2, "powmul"),
+                    "geom" => (2, "geom"),
+                    "tri" => (4, "tri"),
+                    _ => continue,
+                };
+                // `tri <w> <branch> <expr> <initial> <increment> <before_in> <before_out>`: branch and before_out are results
+                let (args, res): (Vec<&str>, Vec<&str>) = if kind == "tri" {
+                    (t[3..7].to_vec(), vec![t[2], t[7]])
+                } else {
+                    (t[2..2 + nargs].to_vec(), t[2 + nargs..].to_vec())
+                };
+                out.case(&format!("opt {kind} {} {}", t[1], args.join(" ")), &res.join(" "));
+                out.stat(kind);
+                if kind == "tri" {
+                    out.stat(&format!("tri_branch_{}", t[2]));
+                }
+            }
+        }
+    }
+}
+
+/// Every arithmetic decision the optimiser makes (trip counts, powers, geometric and triangular closed
+/// forms) while optimising generated programs, recomputed by the Lean model from the recorded arguments.
+pub fn optarith(r: &mut Rng, count: usize, out: &mut Out) {
+    for i in 0..count {
+        let code = if i % 2 == 0 { gen::structured(r) } else { random_program(r, out) };
+        let w = *r.pick(&WIDTHS);
+        match w {
+            8 => optarith_case::<u8>(&code, out),
+            16 => optarith_case::<u16>(&code, out),
+            32 => optarith_case::<u32>(&code, out),
+            _ => optarith_case::<u64>(&code, out),
+        }
+    }
+}
+
+// ---------------------------------------------------------------------------------------- optdse
+
+fn encode_anal(a: &hpbf::verif::DseAnal) -> String {
+    let b = |x: bool| if x { '1' } else { '0' };
+    format!(
+        "A{}{}{}({}){{{}}}",
+        b(a.at_most_once),
+        b(a.at_least_once),
+        b(a.has_shift),
+        a.reads.iter().map(|v| v.to_string()).collect::<Vec<_>>().join(","),
+        a.subs.iter().map(encode_anal).collect::<Vec<_>>().join("")
+    )
+}
+
+/// A random analysis tree with the shape of the block structure of `insts` (occasionally with a missing
+/// node: the pass must panic, and so must the model).
+fn gen_anal<C: CellType>(r: &mut Rng, insts: &[ir::Instr<C>], vlo: i64, vhi: i64, break_shape: bool) -> hpbf::verif::DseAnal {
+    let mut subs = Vec::new();
+    for i in insts {
+        match i {
+            ir::Instr::Loop { block, .. } | ir::Instr::If { block, .. } => {
+                subs.push(gen_anal::<C>(r, &block.insts, vlo, vhi, false));
+            }
+            _ => {}
+        }
+    }
+    if break_shape && !subs.is_empty() {
+        subs.pop();
+    }
+    let mut reads = Vec::new();
+    for _ in 0..r.below(5) {
+        reads.push(r.range(vlo - 1, vhi + 1) as isize);
+    }
+    reads.sort();
+    reads.dedup();
+    hpbf::verif::DseAnal {
+        at_most_once: r.chance(1, 2),
+        at_least_once: r.chance(1, 2),
+        has_shift: r.chance(1, 4),
+        reads,
+        subs,
+    }
+}
+
+fn optdse_reachable<C: CellType>(w: u32, code: &str, out: &mut Out) {
+    if let Ok(p) = ir::Program::<C>::parse(code) {
+        for &lvl in &[2u32, 3] {
+            for (before, anal, after) in p.verif_dse_steps(lvl) {
+                out.case(
+                    &format!("optdse {w} {} {}", encode_anal(&anal), encode_block(&before)),
+                    &encode_block(&after),
+                );
+                out.stat("reachable");
+                if before != after {
+                    out.stat("reachable_changed");
+                }
+            }
+        }
+    }
+}
+
+fn optdse_random<C: CellType>(w: u32, r: &mut Rng, out: &mut Out) {
+    let c = IrCfg {
+        vlo: -(r.below(3) as i64),
+        vhi: 1 + r.below(5) as i64,
+        maxparts: 1 + r.below(3),
+        maxvars: r.below(3),
+        maxcalcs: 1 + r.below(3),
+        maxlen: 1 + r.below(7),
+        maxdepth: r.below(4) as u32,
+        loops: true,
+    };
+    let before: ir::Block<C> = ir::Block { shift: 0, insts: gen_ir_insts::<C>(r, &c, 0) };
+    let broken = r.chance(1, 25);
+    let anal = gen_anal::<C>(r, &before.insts, c.vlo, c.vhi, broken);
+    let mut prog = before.clone();
+    let a2 = anal.clone();
+    let res = std::panic::catch_unwind(std::panic::AssertUnwindSafe(move || {
+        prog.verif_dse_with(&a2);
+        prog
+    }));
+    let imp = match res {
+        Ok(p) => {
+            out.stat(if p != before { "random_changed" } else { "random_same" });
+            encode_block(&p)
+        }
+        Err(_) => {
+            out.stat("random_panic");
+            "panic".to_string()
+        }
+    };
+    out.case(&format!("optdse {w} {} {}", encode_anal(&anal), encode_block(&before)), &imp);
+}
+
+/// The optimiser's IR-level dead store elimination: (a) every (program, analysis) pair it is given
+/// while optimising generated programs at levels 2 and 3, (b) random IR with random analyses.
+pub fn optdse(r: &mut Rng, count: usize, out: &mut Out) {
+    let prev = std::panic::take_hook();
+    std::panic::set_hook(Box::new(|_| {}));
+    for i in 0..count {
+        let w = *r.pick(&WIDTHS);
+        if i % 3 == 0 {
+            let code = if i % 2 == 0 { gen::structured(r) } else { random_program(r, out) };
+            with_width!(w, optdse_reachable, w, &code, out);
+        } else {
+            with_width!(w, optdse_random, w, r, out);
+        }
+    }
+    std::panic::set_hook(prev);
 }
